@@ -21,7 +21,7 @@ var c01Names = []string{
 	"type", "func", "range", "map", "go", "select", "default", "interface", "package", "var", "return", "import", "chan", "const", "for", "if",
 	"string", "error", "int", "nil", "true", "len", "new", "make", "any", "bool", "byte", "float64", "iota", "append", "panic",
 	// identifiers of the generated code and its imports
-	"models", "client", "operations", "params", "timeout", "context", "Context", "HTTPClient", "err", "result", "res", "payload", "body", "Body",
+	"models", "client", "operations", "params", "timeout", "Timeout", "TimeOut", "timeout_", "context_", "httpClient", "http-client", "context", "Context", "HTTPClient", "err", "result", "res", "payload", "body", "Body",
 	"runtime", "strfmt", "swag", "validate", "errors", "middleware", "json", "http", "fmt", "io", "time", "url", "api", "API", "o", "m", "r", "v", "i",
 	"Validate", "MarshalJSON", "String", "Error", "Code", "Payload", "WriteResponse", "Handle", "NewThing", "Params", "Parameters", "Responses", "OK", "Default",
 	// file-name and directory tokens
